@@ -346,8 +346,11 @@ Definition dc_ecc_hash (ks : list key) (rot_id : N) : res (list N) :=
             | None => Err 2
             | Some k => bind (key_halg k) (fun a => bind (raw_key k) (fun d => Ok (hash a d)))
             end
-    | _ => let per := nlen table / nlen ks in        (* key_size = HASH_SIZES[(len - 4) // cnt] *)
-           if per =? 32 then Ok (hash A256 table) else if per =? 48 then Ok (hash A384 table) else Err 2
+    | _ => (* key_size = HASH_SIZES[HASH_SIZE] of the subclass chosen by load_from_config (32 -> 256, 48 -> 384, 66 -> 512) *)
+           match ks with
+           | [] => Err 1
+           | k0 :: _ => bind (dc_hash_of_size (N.of_nat (coord_size (key_bits k0)))) (fun a => Ok (hash a table))
+           end
     end).
 (* RotMetaEdgeLockEnclave: exactly four keys, AHAB v1 table with the configured CA flag or-ed with the key's "ca" attribute *)
 Definition dc_ele_hash (inp : list (key * supply)) (flag_ca : bool) (rot_id : N) : res (list N) :=
